@@ -34,6 +34,8 @@ class G:
         self.gen_msg = ""
         self.code = None
         self.rustc_error = None
+        self.assert_code = None    # exact-type assertions generated from the compiler model's declarations
+        self.mcompile = None       # the compiler model's answer for this grammar
         self.exports = []
 
 
@@ -216,7 +218,10 @@ def _shard_main(gs):
         if g.meta.get("via_macro"):
             parts.append("mod %s { use super::hooks; peginator_macro::peginate!(r#####\"%s\"#####); }\n" % (g.gid, g.text))
         else:
-            parts.append("mod %s { use super::hooks; include!(\"%s.rs\"); }\n" % (g.gid, g.gid))
+            if getattr(g, "assert_code", None):
+                parts.append("mod %s { use super::hooks; include!(\"%s.rs\"); include!(\"%s_assert.rs\"); }\n" % (g.gid, g.gid, g.gid))
+            else:
+                parts.append("mod %s { use super::hooks; include!(\"%s.rs\"); }\n" % (g.gid, g.gid))
         nodebug = g.derives is not None and "Debug" not in g.derives
         for r in g.exports:
             ty = "%s::%s" % (g.gid, r if not _is_kw(r) else "r#" + r)
@@ -269,13 +274,16 @@ def build(grammars, key, nshards=16, profile="dev"):
             for g in gs:
                 with open(os.path.join(d, g.gid + ".rs"), "w", encoding="utf-8") as f:
                     f.write(g.code)
+                if getattr(g, "assert_code", None):
+                    with open(os.path.join(d, g.gid + "_assert.rs"), "w", encoding="utf-8") as f:
+                        f.write(g.assert_code)
             with open(os.path.join(d, "main.rs"), "w", encoding="utf-8") as f:
                 f.write(_shard_main(gs))
         with open(os.path.join(ws, "Cargo.toml"), "w") as f:
             f.write('[workspace]\nresolver = "2"\nmembers = [%s]\n\n[profile.dev]\ndebug = false\nincremental = false\n\n[profile.release]\ndebug = false\nincremental = false\nopt-level = 2\n' %
                     ", ".join('"%s"' % m for m in members))
         shutil.copy(os.path.join(vp.REPO, "Cargo.lock"), os.path.join(ws, "Cargo.lock"))
-        cmd = ["cargo", "build", "--offline", "--workspace", "--message-format=short"]
+        cmd = ["cargo", "build", "--offline", "--workspace", "--keep-going", "--message-format=short"]
         if profile == "release":
             cmd.append("--release")
         env = {"CARGO_TARGET_DIR": os.path.join(vp.CACHE, "target-gen"), "RUSTFLAGS": "--cfg %s" % vp.GUARD}
@@ -294,12 +302,12 @@ def build(grammars, key, nshards=16, profile="dev"):
             for g in live:
                 exes[g.gid] = os.path.join(bindir, os.path.basename(exes[g.gid]))
             return exes
-        bad = set(re.findall(r"src/(g\w+)\.rs:\d+", out))
+        bad = set(x[:-7] if x.endswith("_assert") else x for x in re.findall(r"src/(g\w+)\.rs:\d+", out))
         if not bad:
             raise RuntimeError("shard build failed without a culprit:\n" + out[-5000:])
         for g in live:
             if g.gid in bad:
-                errs = [l for l in out.split("\n") if ("src/%s.rs" % g.gid) in l]
+                errs = [l for l in out.split("\n") if ("src/%s.rs" % g.gid) in l or ("src/%s_assert.rs" % g.gid) in l]
                 g.rustc_error = "\n".join(errs[:5])
     raise RuntimeError("shard build keeps failing")
 
